@@ -59,7 +59,22 @@ fn render_req(r: &HttpRequest) -> String {
     )
 }
 
+thread_local! {
+    // credentials that coincide with the case's own under a lossy reading (other split of
+    // "id:secret", other case): a request of ANOTHER client carrying them is sent on this thread
+    // immediately before every observed request
+    static LOOKALIKE: RefCell<Vec<(String, String)>> = RefCell::new(vec![]);
+}
+
 fn capture<F: FnOnce(&dyn Fn(HttpRequest) -> Result<HttpResponse, FakeError>)>(f: F) -> String {
+    let decoys: Vec<(String, String)> = LOOKALIKE.with(|l| l.borrow().clone());
+    for (did, dsec) in decoys {
+        let quiet = |_r: HttpRequest| -> Result<HttpResponse, FakeError> { Err(FakeError("decoy".into())) };
+        let c = BasicClient::new(ClientId::new(did))
+            .set_client_secret(ClientSecret::new(dsec))
+            .set_token_uri(TokenUrl::new("https://decoy.example/token".to_string()).unwrap());
+        let _ = c.exchange_client_credentials().request(&quiet);
+    }
     let cap: RefCell<Vec<HttpRequest>> = RefCell::new(vec![]);
     let http = |r: HttpRequest| -> Result<HttpResponse, FakeError> {
         cap.borrow_mut().push(r);
@@ -334,6 +349,21 @@ fn run_line(line: &str) -> String {
         Some(o) => o,
         None => return BAD.into(),
     };
+    // look-alike credentials for the LAST secret of the history
+    let last_secret = ops.iter().rev().find_map(|o| if let Op::Secret(s) = o { Some(s.clone()) } else { None });
+    let mut look = vec![];
+    if let Some(sec) = last_secret {
+        let raw = format!("{}:{}", id, sec);
+        for (p, ch) in raw.char_indices() {
+            if ch == ':' && !(raw[..p] == id && raw[p + 1..] == sec) {
+                look.push((raw[..p].to_string(), raw[p + 1..].to_string()));
+            }
+        }
+        look.push((id.to_uppercase(), sec.to_uppercase()));
+        look.truncate(3);
+        look.reverse(); // the other split, if any, goes last = immediately before the observed request
+    }
+    LOOKALIKE.with(|l| *l.borrow_mut() = look);
     run(BasicClient::new(ClientId::new(id)), &ops)
 }
 
